@@ -617,7 +617,7 @@ theorem extract_slice_total_repaired {n : Nat} (hn : (n : Int) ≤ PY_SSIZE_T_MA
         have : ¬ (S < -1 ∨ E < -1 ∨ (S - E - 1).tdiv (-st) + 1 < 0) := by omega
         rw [if_neg this]; exact ⟨_, rfl⟩
       · simp only [hSE, if_false]
-        have : ¬ (S < -1 ∨ E < -1) := by omega
+        have : ¬ (S < -1 ∨ E < -1 ∨ (0 : Int) < 0) := by omega
         rw [if_neg this]; exact ⟨_, rfl⟩
     · have hpos : 0 < st := by omega
       simp only [hneg, if_false] at h3 h4 ⊢
@@ -631,7 +631,7 @@ theorem extract_slice_total_repaired {n : Nat} (hn : (n : Int) ≤ PY_SSIZE_T_MA
         have : ¬ ((S : Int) < -1 ∨ (E : Int) < -1 ∨ ((E : Int) - (S : Int) - 1).tdiv st + 1 < 0) := by omega
         rw [if_neg this]; exact ⟨_, rfl⟩
       · simp only [hSE, if_false]
-        have : ¬ ((S : Int) < -1 ∨ (E : Int) < -1) := by omega
+        have : ¬ ((S : Int) < -1 ∨ (E : Int) < -1 ∨ (0 : Int) < 0) := by omega
         rw [if_neg this]; exact ⟨_, rfl⟩
 
 end ImathVerif.FixedArray
